@@ -278,9 +278,17 @@ fn small_len() -> BoxedStrategy<usize> {
 }
 
 fn small_int() -> BoxedStrategy<Int> {
-    (small_len(), 0u8..gen::N_PATTERNS, any::<u64>(), any::<bool>())
-        .prop_map(|(n, p, s, neg)| {
-            let mag = Nat(gen::expand(n, p, s));
+    (small_len(), 0u8..gen::N_PATTERNS, any::<u64>(), any::<bool>(), 0u8..24)
+        .prop_map(|(n, p, s, neg, shape)| {
+            let mag = if shape == 0 && n >= 1 {
+                // a perfect power b^e of about n words (route `pow`)
+                let e = [2u32, 3, 5, 7][(s % 4) as usize];
+                let bits = (64 * n as u64 / e as u64).max(2);
+                let b = (Nat(gen::expand(n, p, s)).big() >> (64 * n as u64 - bits.min(64 * n as u64))) | BigUint::one();
+                Nat::from_big(&Pow::pow(&b, e))
+            } else {
+                Nat(gen::expand(n, p, s))
+            };
             Int { neg: neg && !mag.is_zero(), mag }
         })
         .boxed()
@@ -394,6 +402,15 @@ fn build_iop(v: Int, raw: &RawIOp) -> IOp {
 fn int_case() -> impl Strategy<Value = IntCase> {
     (small_int(), small_int(), (0u8..16, any::<u16>(), any::<u64>()), (0u8..16, any::<u16>(), any::<u64>(), any::<bool>()), raw_iop(), raw_iop(), raw_iop()).prop_map(
         |(v0, ind, (r1, s1, d1), (r2, s2, d2, from0), o0, o1, o2)| {
+            // when a `pow` route is present the base value is made a perfect power of about the same size
+            let v0 = if [&o0, &o1, &o2].iter().any(|o| pick(I_ROUTES, o.0) == Pow) && !v0.mag.is_zero() {
+                let e = [2u32, 3, 5, 7][(d1 % 4) as usize];
+                let bits = v0.mag.big().bits();
+                let b = (v0.mag.big() >> (bits - (bits / e as u64).max(1))) | BigUint::one();
+                Int { neg: v0.neg, mag: Nat::from_big(&Pow::pow(&b, e)) }
+            } else {
+                v0
+            };
             let v1 = related(&v0, r1, s1, d1, &ind);
             let v2 = related(if from0 { &v0 } else { &v1 }, r2, s2, d2, &ind);
             IntCase { ops: vec![build_iop(v0, &o0), build_iop(v1, &o1), build_iop(v2, &o2)] }
@@ -1897,14 +1914,816 @@ fn run_float<R1: ModeTag, R2: ModeTag, const B: Word>(c: &FloatCase, _ctx: &Ctx)
     out
 }
 
+// ------------------------------------------------------------------------------------------------
+// rationals
+// ------------------------------------------------------------------------------------------------
+
+type Q = BigRational;
+
+#[derive(Debug, Clone, Copy, PartialEq, Eq, Hash, Serialize, Deserialize)]
+enum QR {
+    QParts,
+    QPartsSigned,
+    QParse,
+    QFromInt,
+    QAddSub,
+    QMulDiv,
+    QOtherType,
+    QClone,
+    QCloneFrom,
+    QPartsConst,
+    QInvInv,
+    QNegNeg,
+    QFromF64,
+}
+
+const Q_ROUTES: &[QR] = &[
+    QR::QParts,
+    QR::QParts,
+    QR::QParts,
+    QR::QPartsSigned,
+    QR::QParse,
+    QR::QParse,
+    QR::QFromInt,
+    QR::QAddSub,
+    QR::QAddSub,
+    QR::QAddSub,
+    QR::QMulDiv,
+    QR::QMulDiv,
+    QR::QOtherType,
+    QR::QOtherType,
+    QR::QClone,
+    QR::QCloneFrom,
+    QR::QPartsConst,
+    QR::QInvInv,
+    QR::QNegNeg,
+    QR::QFromF64,
+];
+
+fn qr_label(r: QR) -> &'static str {
+    match r {
+        QR::QParts => "route:from_parts(n*g, d*g)",
+        QR::QPartsSigned => "route:from_parts_signed",
+        QR::QParse => "route:from_str_radix",
+        QR::QFromInt => "route:From<integer>",
+        QR::QAddSub => "route:(q+c)-c",
+        QR::QMulDiv => "route:(q*c)/c",
+        QR::QOtherType => "route:relax / canonicalize",
+        QR::QClone => "route:clone",
+        QR::QCloneFrom => "route:clone_from onto large",
+        QR::QPartsConst => "route:from_parts_const",
+        QR::QInvInv => "route:inv(inv(q))",
+        QR::QNegNeg => "route:-(-q)",
+        QR::QFromF64 => "route:TryFrom<f64>",
+    }
+}
+
+#[derive(Debug, Clone, Hash, Serialize, Deserialize)]
+struct QOp {
+    n: Int,
+    d: Nat,
+    route: QR,
+    /// common factor put on numerator and denominator
+    g: Nat,
+    /// second operand c = cn/cd of the arithmetic routes
+    cn: Int,
+    cd: Nat,
+    alt: u8,
+}
+
+#[derive(Debug, Clone, Hash, Serialize, Deserialize)]
+struct RatioCase {
+    ops: Vec<QOp>,
+}
+
+fn small_nat_nz() -> BoxedStrategy<Nat> {
+    (prop_oneof![4 => Just(1usize), 4 => Just(2usize), 3 => Just(3usize), 2 => Just(4usize), 1 => 5usize..=12], 0u8..gen::N_PATTERNS, any::<u64>(), any::<bool>())
+        .prop_map(|(n, p, s, tiny)| if tiny { Nat(vec![s % 30 + 1]) } else { Nat(gen::expand(n, p, s)) })
+        .boxed()
+}
+
+fn nzi(b: BigInt) -> BigInt {
+    if b.is_zero() {
+        BigInt::one()
+    } else {
+        b
+    }
+}
+
+fn related_q(n: &Int, d: &Nat, rel: u8, on: &Int, od: &Nat) -> (Int, Nat) {
+    let (nb, db) = (n.big(), BigInt::from(d.big()));
+    let (onb, odb) = (on.big(), BigInt::from(od.big()));
+    let (rn, rd) = match rel {
+        0..=6 => (nb, db),
+        7 => (nb + 1, db),
+        8 => (nb - 1, db),
+        9 => (nb, db + 1),
+        10 => (nb, nzi(db - 1)),
+        11 => (-nb, db),
+        12 => {
+            if nb.is_zero() {
+                (nb, db)
+            } else if nb.is_negative() {
+                (-db, -nb)
+            } else {
+                (db, nb)
+            }
+        }
+        13 => (onb, odb),
+        14 => (nb, BigInt::one()),
+        15 => (BigInt::zero(), db),
+        // a neighbour at distance 1/(d*od)
+        16 => (&nb * &odb + 1, &db * &odb),
+        17 => (nb, odb),
+        _ => (nb, db),
+    };
+    (Int::from_big(&rn), Nat::from_big(nzi(rd).magnitude()))
+}
+
+type RawQOp = (u16, Nat, bool, Int, Nat, u8);
+fn raw_qop() -> impl Strategy<Value = RawQOp> {
+    (any::<u16>(), small_nat_nz(), prop::bool::weighted(0.25), small_int(), small_nat_nz(), any::<u8>())
+}
+fn build_qop(n: Int, d: Nat, raw: &RawQOp) -> QOp {
+    let (ridx, g, gone, cn, cd, alt) = raw;
+    let route = pick(Q_ROUTES, *ridx);
+    let mut op = QOp { n, d, route, g: if *gone { Nat(vec![1]) } else { g.clone() }, cn: cn.clone(), cd: cd.clone(), alt: *alt };
+    if !matches!(route, QR::QAddSub | QR::QMulDiv) {
+        op.cn = Int::default();
+        op.cd = Nat(vec![1]);
+    }
+    op
+}
+
+fn ratio_case() -> impl Strategy<Value = RatioCase> {
+    (small_int(), small_nat_nz(), small_int(), small_nat_nz(), (0u8..18, 0u8..10), (0u8..18, any::<bool>()), raw_qop(), raw_qop(), raw_qop()).prop_map(|(n0, d0, on, od, (r1, shape), (r2, from0), o0, o1, o2)| {
+        // integers and small dyadic values now and then (routes From<integer>, TryFrom<f64>)
+        let shape = match pick(Q_ROUTES, o0.0) {
+            QR::QFromInt => 0,
+            QR::QFromF64 => 1,
+            _ => shape,
+        };
+        let (n0, d0) = match shape {
+            0 => (n0, Nat(vec![1])),
+            1 => {
+                let k = d0.0[0] % 80;
+                let w = n0.mag.0.first().copied().unwrap_or(0) >> 12;
+                (Int { neg: n0.neg && w != 0, mag: Nat(vec![w]) }, Nat::from_big(&(BigUint::one() << k)))
+            }
+            _ => (n0, d0),
+        };
+        let (n1, d1) = related_q(&n0, &d0, r1, &on, &od);
+        let (n2, d2) = if from0 { related_q(&n0, &d0, r2, &on, &od) } else { related_q(&n1, &d1, r2, &on, &od) };
+        RatioCase { ops: vec![build_qop(n0, d0, &o0), build_qop(n1, d1, &o1), build_qop(n2, d2, &o2)] }
+    })
+}
+
+fn q_model(op: &QOp) -> Q {
+    Q::new(op.n.big(), nzi(BigInt::from(op.d.big())))
+}
+
+/// dyadic value that is exactly an f64
+fn as_f64(q: &Q) -> Option<f64> {
+    let d = q.denom().magnitude();
+    if d.count_ones() != 1 {
+        return None;
+    }
+    let k = d.bits() as i64 - 1;
+    let n = q.numer().to_i64()?;
+    if n.unsigned_abs() >= 1 << 53 || k > 900 {
+        return None;
+    }
+    Some(n as f64 * 2f64.powi(-(k as i32)))
+}
+
+fn qcheck(tr: &mut Tr, what: &str, num: &IBig, den: &UBig, want: &Q, canon: bool) {
+    if tr.err.is_some() {
+        return;
+    }
+    let (n, d) = (i2n(num), BigInt::from(u2n(den)));
+    tr.i(&format!("{what}: numerator"), num, &n);
+    tr.u(&format!("{what}: denominator"), den, d.magnitude());
+    if tr.err.is_some() {
+        return;
+    }
+    if d.is_zero() {
+        tr.err = Some(format!("{what}: denominator 0"));
+    } else if &n * want.denom() != want.numer() * &d {
+        tr.err = Some(format!("{what}: value {}/{} instead of {}/{}", show_i(&n), show_i(&d), show_i(want.numer()), show_i(want.denom())));
+    } else if canon && (&n != want.numer() || &d != want.denom()) {
+        tr.err = Some(format!("{what}: RBig stored as {}/{}, lowest terms are {}/{}", show_i(&n), show_i(&d), show_i(want.numer()), show_i(want.denom())));
+    }
+}
+
+macro_rules! q_routes {
+    ($fname:ident, $T:ident, $canon:expr) => {
+        fn $fname(op: &QOp, tr: &mut Tr, out: &mut Out) -> $T {
+            let want = q_model(op);
+            let g = nzi(BigInt::from(op.g.big()));
+            let (ng, dg) = (op.n.big() * &g, nzi(BigInt::from(op.d.big())) * &g);
+            let alt = op.alt;
+            let plain = || <$T>::from_parts(n2i(&ng), n2u(dg.magnitude()));
+            let c = Q::new(op.cn.big(), nzi(BigInt::from(op.cd.big())));
+            let cv = || <$T>::from_parts(op.cn.ibig(), n2u(nzi(BigInt::from(op.cd.big())).magnitude()));
+            match op.route {
+                QR::QParts => plain(),
+                QR::QPartsSigned => {
+                    if alt & 1 == 0 {
+                        <$T>::from_parts_signed(n2i(&ng), n2i(&dg))
+                    } else {
+                        <$T>::from_parts_signed(n2i(&-ng.clone()), n2i(&-dg.clone()))
+                    }
+                }
+                QR::QParse => {
+                    let radix = [10u32, 16, 36, 2][(alt % 4) as usize];
+                    let text = if alt & 4 != 0 && !ng.is_zero() {
+                        format!("{}/-{}", (-ng.clone()).to_str_radix(radix), dg.to_str_radix(radix))
+                    } else if alt & 8 != 0 && !ng.is_negative() {
+                        format!("+{}/{}", ng.to_str_radix(radix), dg.to_str_radix(radix))
+                    } else if want.is_integer() && alt & 16 != 0 {
+                        want.numer().to_str_radix(radix)
+                    } else {
+                        format!("{}/{}", ng.to_str_radix(radix), dg.to_str_radix(radix))
+                    };
+                    <$T>::from_str_radix(&text, radix).unwrap_or_else(|e| panic!("from_str_radix({text:?}, {radix}) failed: {e:?}"))
+                }
+                QR::QFromInt => {
+                    if want.is_integer() {
+                        let n = want.numer();
+                        match alt % 3 {
+                            0 => <$T>::from(n2i(n)),
+                            1 if !n.is_negative() => <$T>::from(n2u(n.magnitude())),
+                            _ => match n.to_i64() {
+                                Some(x) => <$T>::from(x),
+                                None => <$T>::from(n2i(n)),
+                            },
+                        }
+                    } else {
+                        out.label("route:fallback from_parts");
+                        plain()
+                    }
+                }
+                QR::QAddSub => {
+                    let s = match alt % 3 {
+                        0 => plain() + cv(),
+                        1 => &cv() + &plain(),
+                        _ => {
+                            let mut t = plain();
+                            t += &cv();
+                            t
+                        }
+                    };
+                    qcheck(tr, "q+c", s.numerator(), s.denominator(), &(&want + &c), $canon);
+                    if alt & 4 == 0 {
+                        s - cv()
+                    } else {
+                        let mut t = s;
+                        t -= cv();
+                        t
+                    }
+                }
+                QR::QMulDiv => {
+                    if c.is_zero() {
+                        out.label("route:fallback from_parts");
+                        return plain();
+                    }
+                    let m = match alt % 3 {
+                        0 => plain() * cv(),
+                        1 => &cv() * &plain(),
+                        _ => {
+                            let mut t = plain();
+                            t *= &cv();
+                            t
+                        }
+                    };
+                    qcheck(tr, "q*c", m.numerator(), m.denominator(), &(&want * &c), $canon);
+                    if alt & 4 == 0 {
+                        m / cv()
+                    } else {
+                        &m / &cv()
+                    }
+                }
+                QR::QOtherType => other_type::$fname(n2i(&ng), n2u(dg.magnitude()), alt),
+                QR::QClone => plain().clone(),
+                QR::QCloneFrom => {
+                    let mut t = <$T>::from_parts(IBig::from_parts(sign_of(alt & 1 != 0), large_u(30)), (UBig::ONE << 900usize) + UBig::ONE);
+                    t.clone_from(&plain());
+                    t
+                }
+                QR::QPartsConst => match (ng.magnitude().to_u128(), dg.magnitude().to_u128()) {
+                    (Some(a), Some(b)) => <$T>::from_parts_const(sign_of(ng.is_negative()), a, b),
+                    _ => {
+                        out.label("route:fallback from_parts");
+                        plain()
+                    }
+                },
+                QR::QInvInv => {
+                    if want.is_zero() {
+                        out.label("route:fallback from_parts");
+                        return plain();
+                    }
+                    let i = if alt & 1 == 0 { Inverse::inv(plain()) } else { Inverse::inv(&plain()) };
+                    qcheck(tr, "inv(q)", i.numerator(), i.denominator(), &want.recip(), $canon);
+                    Inverse::inv(i)
+                }
+                QR::QNegNeg => {
+                    let n = -plain();
+                    qcheck(tr, "-q", n.numerator(), n.denominator(), &-want.clone(), $canon);
+                    -&n
+                }
+                QR::QFromF64 => match as_f64(&want) {
+                    Some(f) => <$T>::try_from(f).expect("try_from(finite f64)"),
+                    None => {
+                        out.label("route:fallback from_parts");
+                        plain()
+                    }
+                },
+            }
+        }
+    };
+}
+
+mod other_type {
+    use super::*;
+    pub fn build_rbig(n: IBig, d: UBig, _alt: u8) -> RBig {
+        Relaxed::from_parts(n, d).canonicalize()
+    }
+    pub fn build_relaxed(n: IBig, d: UBig, alt: u8) -> Relaxed {
+        let r = RBig::from_parts(n, d);
+        if alt & 1 == 0 {
+            r.relax()
+        } else {
+            r.as_relaxed().clone()
+        }
+    }
+}
+q_routes!(build_rbig, RBig, true);
+q_routes!(build_relaxed, Relaxed, false);
+
+fn run_ratio(c: &RatioCase, _ctx: &Ctx) -> Out {
+    let mut out = Out::new();
+    let ops = &c.ops[..c.ops.len().min(3)];
+    let mut rs: Vec<RBig> = Vec::new();
+    let mut xs: Vec<Relaxed> = Vec::new();
+    let vals: Vec<Q> = ops.iter().map(q_model).collect();
+    for (idx, op) in ops.iter().enumerate() {
+        out.label(qr_label(op.route));
+        if op.d.is_zero() {
+            out.inconclusive("replayed case with a zero denominator");
+            return out;
+        }
+        let mut tr = Tr::new();
+        match catch(|| build_rbig(op, &mut tr, &mut out)) {
+            Err(m) => {
+                out.fail(format!("RBig operand {idx} via {}: panicked: {}", qr_label(op.route), normalise(&m)));
+                return out;
+            }
+            Ok(r) => {
+                qcheck(&mut tr, "result", r.numerator(), r.denominator(), &vals[idx], true);
+                if let Some(e) = tr.err {
+                    out.fail(format!("RBig operand {idx} via {} (alt {}): {e}", qr_label(op.route), op.alt));
+                    return out;
+                }
+                rs.push(r);
+            }
+        }
+        let mut tr = Tr::new();
+        match catch(|| build_relaxed(op, &mut tr, &mut out)) {
+            Err(m) => {
+                out.fail(format!("Relaxed operand {idx} via {}: panicked: {}", qr_label(op.route), normalise(&m)));
+                return out;
+            }
+            Ok(r) => {
+                qcheck(&mut tr, "result", r.numerator(), r.denominator(), &vals[idx], false);
+                if let Some(e) = tr.err {
+                    out.fail(format!("Relaxed operand {idx} via {} (alt {}): {e}", qr_label(op.route), op.alt));
+                    return out;
+                }
+                let (n, d) = (i2n(r.numerator()), BigInt::from(u2n(r.denominator())));
+                if !n.gcd(&d).is_one() {
+                    out.label("Relaxed operand not in lowest terms");
+                }
+                xs.push(r);
+            }
+        }
+    }
+    let shows: Vec<String> = vals.iter().map(|v| format!("{}/{}", show_i(v.numer()), show_i(v.denom()))).collect();
+    for a in 0..ops.len() {
+        for b in 0..ops.len() {
+            let want = vals[a].cmp(&vals[b]);
+            let wabs = vals[a].abs().cmp(&vals[b].abs());
+            let (ra, rb) = (qr_label(ops[a].route), qr_label(ops[b].route));
+            if a < b {
+                out.label(order_label(want));
+                let words = |q: &Q| q.numer().bits().max(q.denom().bits());
+                if ops[a].route != ops[b].route && words(&vals[a]).max(words(&vals[b])) > 64 {
+                    out.nontrivial(true);
+                }
+                let (pa, pb) = ((i2n(xs[a].numerator()), u2n(xs[a].denominator())), (i2n(xs[b].numerator()), u2n(xs[b].denominator())));
+                if want == Ordering::Equal && pa != pb {
+                    out.label("pair:equal value, different Relaxed parts");
+                    out.nontrivial(true);
+                }
+            }
+            let (x, y) = (&rs[a], &rs[b]);
+            let r = catch(|| {
+                let mut bad = suite::<RBig>(x, y, want, wabs, Some(hash_of::<RBig>));
+                let ae = x.abs_eq(y);
+                if ae != (wabs == Ordering::Equal) {
+                    bad.push(format!("abs_eq is {ae}"));
+                }
+                bad
+            });
+            report(&mut out, "RBig", a, ra, b, rb, &shows[a], &shows[b], want, r);
+            let (x, y) = (&xs[a], &xs[b]);
+            let r = catch(|| {
+                let mut bad = suite::<Relaxed>(x, y, want, wabs, None);
+                let ae = x.abs_eq(y);
+                if ae != (wabs == Ordering::Equal) {
+                    bad.push(format!("abs_eq is {ae}"));
+                }
+                bad
+            });
+            report(&mut out, "Relaxed", a, ra, b, rb, &shows[a], &shows[b], want, r);
+            let (x, y) = (&rs[a], &xs[b]);
+            let r = catch(|| {
+                let mut bad = Vec::new();
+                let (c1, c2) = (AbsOrd::abs_cmp(x, y), AbsOrd::abs_cmp(y, x));
+                if c1 != wabs || c2 != wabs.reverse() {
+                    bad.push(format!("RBig.abs_cmp(Relaxed) is {c1:?}, Relaxed.abs_cmp(RBig) is {c2:?}, magnitudes compare {wabs:?}"));
+                }
+                bad
+            });
+            report(&mut out, "RBig against Relaxed", a, ra, b, rb, &shows[a], &shows[b], want, r);
+        }
+    }
+    // magnitudes against integers and floats next to the value
+    for (a, op) in ops.iter().enumerate() {
+        let q = vals[a].abs();
+        let fl = q.floor().to_integer();
+        let t = match op.alt % 3 {
+            0 => fl.clone(),
+            1 => &fl + 1,
+            _ => q.round().to_integer(),
+        };
+        let wi = q.cmp(&Q::from_integer(t.clone()));
+        out.label(match wi {
+            Ordering::Equal => "integer pair:equal",
+            _ => "integer pair:different",
+        });
+        let tu = n2u(t.magnitude());
+        let ti = n2i(&if op.alt & 4 != 0 { -t.clone() } else { t.clone() });
+        // a binary float next to |q|: numerator scaled by a power of two near 1/denominator
+        let e2 = -(vals[a].denom().bits() as i64 - 1) + (op.alt as i64 >> 3) % 3 - 1;
+        let fsig = vals[a].numer().clone();
+        let wf = q.cmp(&Sci::new(fsig.abs(), e2, 2).to_rational());
+        let f = FBig::<mode::Zero, 2>::from_parts(n2i(&fsig), e2 as isize);
+        let (r, x) = (&rs[a], &xs[a]);
+        let res = catch(|| {
+            let mut bad = Vec::new();
+            let got = [
+                ("RBig.abs_cmp(UBig)", AbsOrd::abs_cmp(r, &tu), wi),
+                ("UBig.abs_cmp(RBig)", AbsOrd::abs_cmp(&tu, r), wi.reverse()),
+                ("RBig.abs_cmp(IBig)", AbsOrd::abs_cmp(r, &ti), wi),
+                ("IBig.abs_cmp(RBig)", AbsOrd::abs_cmp(&ti, r), wi.reverse()),
+                ("Relaxed.abs_cmp(UBig)", AbsOrd::abs_cmp(x, &tu), wi),
+                ("UBig.abs_cmp(Relaxed)", AbsOrd::abs_cmp(&tu, x), wi.reverse()),
+                ("Relaxed.abs_cmp(IBig)", AbsOrd::abs_cmp(x, &ti), wi),
+                ("IBig.abs_cmp(Relaxed)", AbsOrd::abs_cmp(&ti, x), wi.reverse()),
+                ("RBig.abs_cmp(FBig)", AbsOrd::abs_cmp(r, &f), wf),
+                ("FBig.abs_cmp(RBig)", AbsOrd::abs_cmp(&f, r), wf.reverse()),
+                ("Relaxed.abs_cmp(FBig)", AbsOrd::abs_cmp(x, &f), wf),
+                ("FBig.abs_cmp(Relaxed)", AbsOrd::abs_cmp(&f, x), wf.reverse()),
+                ("RBig.abs_cmp(+inf)", AbsOrd::abs_cmp(r, &FBig::<mode::Zero, 2>::INFINITY), Ordering::Less),
+                ("-inf.abs_cmp(Relaxed)", AbsOrd::abs_cmp(&FBig::<mode::Zero, 2>::NEG_INFINITY, x), Ordering::Greater),
+            ];
+            for (what, g, w) in got {
+                if g != w {
+                    bad.push(format!("{what} is {g:?}, magnitudes compare {w:?}"));
+                }
+            }
+            bad
+        });
+        let other = format!("integer {} / float {}·2^{}", show_i(&t), show_i(&fsig), e2);
+        report(&mut out, "rational against integer / float (AbsOrd)", a, qr_label(op.route), a, "neighbouring integer and float", &shows[a], &other, wi, res);
+    }
+    out
+}
+
+// ------------------------------------------------------------------------------------------------
+// integers: histories (in-place updates on a small pool, compared with freshly built equal values)
+// ------------------------------------------------------------------------------------------------
+
+#[derive(Debug, Clone, Copy, PartialEq, Eq, Hash, Serialize, Deserialize)]
+enum HK {
+    HAdd,
+    HSub,
+    HMul,
+    HDiv,
+    HRem,
+    HShl,
+    HShr,
+    HAnd,
+    HOr,
+    HXor,
+    HNot,
+    HNeg,
+    HAbs,
+    HCloneFrom,
+    HTake,
+    HSqr,
+    HSetBit,
+    HClearBit,
+    HAddWord,
+    HSubWord,
+    HMulWord,
+    HDivWord,
+}
+use HK::*;
+
+const H_KINDS: &[HK] = &[
+    HAdd, HAdd, HAdd, HSub, HSub, HSub, HSub, HMul, HMul, HDiv, HDiv, HRem, HRem, HShl, HShl, HShr, HShr, HShr, HAnd, HOr, HXor, HXor, HNot, HNeg, HNeg, HAbs, HCloneFrom, HCloneFrom, HTake,
+    HSqr, HSetBit, HClearBit, HClearBit, HAddWord, HSubWord, HSubWord, HMulWord, HDivWord, HDivWord,
+];
+
+fn hk_label(k: HK) -> &'static str {
+    match k {
+        HAdd => "step:add",
+        HSub => "step:sub",
+        HMul => "step:mul",
+        HDiv => "step:div",
+        HRem => "step:rem",
+        HShl => "step:shl",
+        HShr => "step:shr",
+        HAnd => "step:and",
+        HOr => "step:or",
+        HXor => "step:xor",
+        HNot => "step:not",
+        HNeg => "step:neg",
+        HAbs => "step:abs",
+        HCloneFrom => "step:clone_from",
+        HTake => "step:mem::take",
+        HSqr => "step:sqr",
+        HSetBit => "step:set_bit",
+        HClearBit => "step:clear_bit",
+        HAddWord => "step:add word",
+        HSubWord => "step:sub word",
+        HMulWord => "step:mul word",
+        HDivWord => "step:div word",
+    }
+}
+
+#[derive(Debug, Clone, Hash, Serialize, Deserialize)]
+struct HOp {
+    kind: HK,
+    dst: u8,
+    a: u8,
+    b: u8,
+    /// shift count / bit index
+    s: u16,
+    /// update slot `a` in place (its buffer is reused and the result moves to `dst`)
+    assign: bool,
+    w: u64,
+}
+
+#[derive(Debug, Clone, Hash, Serialize, Deserialize)]
+struct HistCase {
+    seeds: Vec<Int>,
+    ops: Vec<HOp>,
+}
+
+const HPOOL: usize = 4;
+const HCAP_BITS: u64 = 64 * 60;
+
+fn hist_case(max_steps: usize) -> impl Strategy<Value = HistCase> {
+    let op = (any::<u16>(), 0u8..4, 0u8..4, 0u8..4, prop_oneof![3 => 0u16..=3, 3 => 60u16..=68, 2 => 124u16..=132, 2 => 188u16..=196, 1 => 0u16..=400], any::<bool>(), prop_oneof![Just(1u64), Just(u64::MAX), any::<u64>()])
+        .prop_map(|(k, dst, a, b, s, assign, w)| HOp { kind: pick(H_KINDS, k), dst, a, b, s, assign, w });
+    (proptest::collection::vec(op, 0..=max_steps), proptest::collection::vec(small_int(), HPOOL)).prop_map(|(ops, seeds)| HistCase { seeds, ops })
+}
+
+fn run_hist(c: &HistCase, _ctx: &Ctx) -> Out {
+    let mut out = Out::new();
+    let mut pool: Vec<IBig> = Vec::new();
+    let mut model: Vec<BigInt> = Vec::new();
+    for k in 0..HPOOL {
+        let s = c.seeds.get(k).cloned().unwrap_or_default();
+        pool.push(s.ibig());
+        model.push(s.big());
+    }
+    let mut crossed = false;
+    for (idx, op) in c.ops.iter().enumerate() {
+        let (dst, a, b) = (op.dst as usize % HPOOL, op.a as usize % HPOOL, op.b as usize % HPOOL);
+        let (ma, mb) = (model[a].clone(), model[b].clone());
+        let s = op.s as usize;
+        let w = BigInt::from(op.w);
+        // expected value from the model alone; None = step not applicable
+        let exp: Option<BigInt> = match op.kind {
+            HAdd => Some(&ma + &mb),
+            HSub => Some(&ma - &mb),
+            HMul => Some(&ma * &mb),
+            HDiv if !mb.is_zero() => Some(&ma / &mb),
+            HRem if !mb.is_zero() => Some(&ma % &mb),
+            HShl => Some(&ma << s),
+            HShr => Some(&ma >> s),
+            HAnd => Some(&ma & &mb),
+            HOr => Some(&ma | &mb),
+            HXor => Some(&ma ^ &mb),
+            HNot => Some(-&ma - 1),
+            HNeg => Some(-&ma),
+            HAbs => Some(ma.abs()),
+            HCloneFrom => Some(ma.clone()),
+            HTake => Some(ma.clone()),
+            HSqr => Some(&ma * &ma),
+            HSetBit if !ma.is_negative() => Some(&ma | (BigInt::one() << s)),
+            HClearBit if !ma.is_negative() => Some(if ma.magnitude().bit(s as u64) { &ma - (BigInt::one() << s) } else { ma.clone() }),
+            HAddWord => Some(&ma + &w),
+            HSubWord => Some(&ma - &w),
+            HMulWord => Some(&ma * &w),
+            HDivWord if op.w != 0 => Some(&ma / &w),
+            _ => None,
+        };
+        let exp = match exp {
+            Some(e) if e.bits() <= HCAP_BITS => e,
+            _ => {
+                out.label("step:skipped");
+                continue;
+            }
+        };
+        out.label(hk_label(op.kind));
+        let inplace = op.assign;
+        let res = catch(|| -> IBig {
+            // in-place: the value of slot a is moved out (slot a becomes 0 unless it is dst)
+            if op.kind == HCloneFrom {
+                let mut t = std::mem::take(&mut pool[dst]);
+                let src = if dst == a { t.clone() } else { pool[a].clone() };
+                t.clone_from(&src);
+                return t;
+            }
+            if op.kind == HTake {
+                return std::mem::take(&mut pool[a]);
+            }
+            let y = pool[b].clone();
+            let mut x = if inplace { std::mem::take(&mut pool[a]) } else { pool[a].clone() };
+            match (op.kind, inplace) {
+                (HAdd, true) => {
+                    x += &y;
+                    x
+                }
+                (HAdd, false) => &x + &y,
+                (HSub, true) => {
+                    x -= y;
+                    x
+                }
+                (HSub, false) => &x - &y,
+                (HMul, true) => {
+                    x *= &y;
+                    x
+                }
+                (HMul, false) => &x * &y,
+                (HDiv, true) => {
+                    x /= &y;
+                    x
+                }
+                (HDiv, false) => &x / &y,
+                (HRem, true) => {
+                    x %= &y;
+                    x
+                }
+                (HRem, false) => &x % &y,
+                (HShl, true) => {
+                    x <<= s;
+                    x
+                }
+                (HShl, false) => &x << s,
+                (HShr, true) => {
+                    x >>= s;
+                    x
+                }
+                (HShr, false) => &x >> s,
+                (HAnd, true) => {
+                    x &= &y;
+                    x
+                }
+                (HAnd, false) => &x & &y,
+                (HOr, true) => {
+                    x |= y;
+                    x
+                }
+                (HOr, false) => &x | &y,
+                (HXor, true) => {
+                    x ^= &y;
+                    x
+                }
+                (HXor, false) => &x ^ &y,
+                (HNot, true) => !x,
+                (HNot, false) => !&x,
+                (HNeg, true) => -x,
+                (HNeg, false) => -&x,
+                (HAbs, _) => x.abs(),
+                (HSqr, _) => IBig::from(x.sqr()),
+                (HSetBit, _) => {
+                    let mut u = UBig::try_from(x).expect("non-negative");
+                    u.set_bit(s);
+                    IBig::from(u)
+                }
+                (HClearBit, _) => {
+                    let mut u = UBig::try_from(x).expect("non-negative");
+                    u.clear_bit(s);
+                    IBig::from(u)
+                }
+                (HAddWord, true) => {
+                    x += op.w;
+                    x
+                }
+                (HAddWord, false) => &x + op.w,
+                (HSubWord, true) => {
+                    x -= op.w;
+                    x
+                }
+                (HSubWord, false) => &x - op.w,
+                (HMulWord, true) => {
+                    x *= op.w;
+                    x
+                }
+                (HMulWord, false) => op.w * &x,
+                (HDivWord, true) => {
+                    x /= op.w;
+                    x
+                }
+                (HDivWord, false) => &x / op.w,
+                (HCloneFrom, _) | (HTake, _) => unreachable!(),
+            }
+        });
+        let moved = op.kind == HTake || (inplace && op.kind != HCloneFrom);
+        match res {
+            Err(m) => {
+                out.fail(format!("history step {idx} {:?} (a = {}, b = {}, s = {s}, w = {}, in place {inplace}): panicked: {}", op.kind, show_i(&ma), show_i(&mb), op.w, normalise(&m)));
+                return out;
+            }
+            Ok(v) => {
+                if moved && a != dst {
+                    model[a] = BigInt::zero();
+                }
+                let (wa, wd) = (ma.magnitude().iter_u64_digits().len(), exp.magnitude().iter_u64_digits().len());
+                if (wa <= 2) != (wd <= 2) {
+                    crossed = true;
+                    out.label("step:crossed the inline/heap boundary");
+                }
+                pool[dst] = v;
+                model[dst] = exp;
+                for k in [dst, a] {
+                    if let Err(e) = layout(&pool[k].__verif_repr(), &model[k]) {
+                        out.fail(format!("history step {idx} {:?} (a = {}, b = {}, s = {s}, w = {}, in place {inplace}), slot {k}: {e}", op.kind, show_i(&ma), show_i(&mb), op.w));
+                        return out;
+                    }
+                }
+            }
+        }
+    }
+    out.nontrivial(crossed);
+    // every slot against a freshly built equal value, and all pairs against the model order
+    let fresh: Vec<IBig> = model.iter().map(n2i).collect();
+    for a in 0..HPOOL {
+        for b in 0..HPOOL {
+            let want = model[a].cmp(&model[b]);
+            let wabs = model[a].magnitude().cmp(model[b].magnitude());
+            let (sa, sb) = (show_i(&model[a]), show_i(&model[b]));
+            for (what, x, y) in [("pool/pool", &pool[a], &pool[b]), ("pool/fresh", &pool[a], &fresh[b]), ("fresh/pool", &fresh[a], &pool[b])] {
+                let r = catch(|| suite::<IBig>(x, y, want, wabs, Some(hash_of::<IBig>)));
+                report(&mut out, "IBig after a history", a, what, b, what, &sa, &sb, want, r);
+            }
+            if !model[a].is_negative() && !model[b].is_negative() {
+                let r = catch(|| {
+                    let (x, y) = (UBig::try_from(pool[a].clone()).expect("non-negative"), UBig::try_from(fresh[b].clone()).expect("non-negative"));
+                    suite::<UBig>(&x, &y, want, wabs, Some(hash_of::<UBig>))
+                });
+                report(&mut out, "UBig after a history", a, "pool", b, "fresh", &sa, &sb, want, r);
+            }
+        }
+    }
+    out.label(match c.ops.len() {
+        0 => "steps:0",
+        1..=5 => "steps:1-5",
+        _ => "steps:>5",
+    });
+    out
+}
+
 // MAIN-BEGIN
 fn main() {
-    let mut ck = Check::new("C05", "tmp");
-    ck.sub("int_routes", (45_000, 1_350_000), int_case, run_int);
+    let mut ck = Check::new(
+        "C05",
+        "same value, different route: a case holds three operands, each a target value plus one of 28 integer / 17 float / 13 rational routes (from_words with zero padding, le/be bytes, parse in radix 10/16/2/36/7, From<primitive>, (v+k)-k, (v-k)+k, (v*k)/k, q*k+r, (v<<s)>>s, xor twice, neg/not twice, clone, clone_from onto a large / small value, mem::take, serde, through RBig / FBig, word pieces, set_bit/clear_bit, ones(n)-d, pow, split_bits / clear_high_bits, chunks, from_static_words on a reclaimed boxed slice, sqrt_rem; floats: Repr::new / from_parts / from_parts_const / from_str with unnormalised significands, with_precision up and back, with_rounding, with_base 2<->16, (x+y)-y, (x*k)/k, shifts, From<IBig>, TryFrom<f64>, constants, +-inf, zero, precisions digits+{0,1,2,5,20,100} or unlimited; rationals: from_parts(n*g, d*g), from_parts_signed, from_str_radix, From<int>, (q+c)-c, (q*c)/c, relax/canonicalize, from_parts_const, inv twice, TryFrom<f64>, each as RBig and as Relaxed). Operands of a case are equal or differ by +-1, one bit, one word, sign, one digit, one exponent step, a tiny fraction, or are independent; integer values concentrate on 0-4 words. Every produced integer (intermediates included, numerators / denominators / significands too) is read through the dashu_verif hook: target value and canonical layout (|capacity| 1/2 inline, >= 3 heap with len >= 3, top word != 0, len <= capacity, zero = +1); floats must be in normal form with at most precision+1 digits. Every ordered pair (9 per case): ==, !=, cmp, partial_cmp, < <= > >=, AbsOrd::abs_cmp, AbsEq, std Hash (UBig, IBig, RBig) against the order of the model values (num-bigint / BigRational / exact n*B^e with infinities); FBig also across rounding-mode types, float Repr ==/cmp, UBig<->IBig and RBig<->Relaxed abs_cmp, rationals against neighbouring integers and binary floats (AbsOrd). int_history: up to 14 in-place / by-reference steps on a pool of 4 IBig with a BigInt model, layout after every step, then every slot against a freshly built equal value. Non-trivial: a pair with different routes whose value has >= 2 words (floats: different routes or precisions; history: a step crossing the inline/heap boundary); distinct by case digest.",
+    );
+    ck.assume("the raw-representation hook `__verif_repr` of /repo (cfg dashu_verif) reports the stored fields faithfully");
+    let steps = if ck.thorough() { 24 } else { 14 };
+    ck.sub("int_routes", (40_000, 1_200_000), int_case, run_int);
+    ck.sub("int_history", (12_000, 360_000), move || hist_case(steps), run_hist);
     ck.sub("float_routes_b2", (9_000, 270_000), || float_case(2), run_float::<mode::Zero, mode::HalfAway, 2>);
     ck.sub("float_routes_b10", (9_000, 270_000), || float_case(10), run_float::<mode::HalfAway, mode::Zero, 10>);
-    ck.sub("float_routes_b16", (6_000, 180_000), || float_case(16), run_float::<mode::HalfEven, mode::Down, 16>);
-    ck.sub("float_routes_b3", (6_000, 180_000), || float_case(3), run_float::<mode::Up, mode::Away, 3>);
+    ck.sub("float_routes_b16", (5_000, 150_000), || float_case(16), run_float::<mode::HalfEven, mode::Down, 16>);
+    ck.sub("float_routes_b3", (5_000, 150_000), || float_case(3), run_float::<mode::Up, mode::Away, 3>);
+    ck.sub("ratio_routes", (22_000, 660_000), ratio_case, run_ratio);
     ck.finish();
 }
 // MAIN-END
